@@ -35,6 +35,11 @@ def enumerate_ops(model, n, pools, groups=("replace", "lists", "marks", "structu
         for a in range(n + 1):
             for nd in pools.get("nodes", []):
                 yield {"op": "insert", "pos": a, "node": nd}
+    if "steps" in groups:
+        # the primitive ReplaceStep applied as it is (no fitting): what a peer sends
+        for a, b in R:
+            for sl in pools.get("slices", []):
+                yield {"op": "replace_step", "from": a, "to": b, "slice": sl}
     if "lists" in groups:
         # content given as a LIST of nodes (Fragment.from_ of a list: adjacent same-markup text nodes are fused)
         for a in range(n + 1):
@@ -184,6 +189,12 @@ def apply_op(c, tr, op):
         return tr.delete(op["from"], op["to"])
     if k == "delete_range":
         return tr.delete_range(op["from"], op["to"])
+    if k == "replace_step":
+        return tr.step(pm_transform.ReplaceStep(op["from"], op["to"], c.slice(op["slice"])))
+    if k in ("add_mark_step", "remove_mark_step"):
+        # the primitive step over the whole range (what a peer sends, what inversion / merging produce)
+        cls = pm_transform.AddMarkStep if k == "add_mark_step" else pm_transform.RemoveMarkStep
+        return tr.step(cls(op["from"], op["to"], c.mark(op["mark"])))
     if k == "add_mark":
         return tr.add_mark(op["from"], op["to"], c.mark(op["mark"]))
     if k == "remove_mark":
